@@ -85,10 +85,15 @@ def sh_(cmd, timeout=120, env=None, cwd=None, limit_mem=False):
         return -9, (ex.stdout or b'').decode('latin-1') + '\n[timeout]'
 
 
+os.environ.setdefault('OMPI_MCA_mpi_yield_when_idle', '1')      # oversubscribed ranks must not spin
+
+
 def mpi(np_, exe, args, timeout=120, cwd=None):
-    if np_ == 1:
-        return sh_([exe] + list(args), timeout=timeout, cwd=cwd)
-    return sh_(C.MPIEXEC + ['-n', str(np_), exe] + list(args), timeout=timeout, cwd=cwd)
+    cmd = ([exe] if np_ == 1 else C.MPIEXEC + ['-n', str(np_), exe]) + list(args)
+    rc, out = sh_(cmd, timeout=timeout, cwd=cwd)
+    if rc == -9:            # MPI start-up can stall on a loaded machine: one retry with a long watchdog
+        rc, out = sh_(cmd, timeout=4 * timeout, cwd=cwd)
+    return rc, out
 
 
 def unhex(s):
@@ -997,6 +1002,9 @@ def check_valid_batch(T, co, base, items):
                             'contradicts encode_with_layout_valid_partial' % (dec, strict, lay), dict(base, klass=klass, desc=desc), None))
             continue
         rc, vout = sh_([T.ncvalidator, p], timeout=20, limit_mem=True)
+        if rc == -9:            # a hang must survive a second, long watchdog (loaded machine)
+            co.stat('retry:ncvalidator')
+            rc, vout = sh_([T.ncvalidator, p], timeout=150, limit_mem=True)
         got = 'accept' if rc == 0 else ('reject' if rc == 1 else ('hang' if rc == -9 else 'crash(rc=%d)' % rc))
         nontrivial = not klass.startswith('benign') or want == 'accept'
         co.counts.append(('ncvalidator %s: %s | %s -> %s' % (klass, desc, base['script_sha'], got), nontrivial))
@@ -1066,18 +1074,20 @@ def check_regen(T, co, base, path, c, feats):
     co.counts.append(('ncmpigen round trip | %s feats=%s' % (base['script_sha'], ','.join(tags)), True))
     co.stat('regen')
     if rc != 0 or not os.path.exists(gen):
-        key = regen_key('rejects', feats, [])
+        key = regen_key('rejects', feats, [])[0][0]
         co.viol.append(('ncmpigen cannot read the CDL that ncmpidump printed for a library-written file (rc %d): %s' %
                         (rc, gout.strip()[-200:]), dict(base, cdl=out[-6000:], output=gout[-1500:], features=tags), key))
         return
+    if 'nc_fill: unrecognized type' in gout:
+        feats.add('ncmpigen-nc_fill-error')
     e = oeq(T, path, gen)
     if e is None or not e['logical_eq']:
         cg = odump(T, gen)
         diffs = describe_diff(c, cg)
-        key = regen_key('differs', feats, diffs)
-        co.viol.append(('dump -> ncmpigen does not reproduce the logical content: %s' % '; '.join(t for _, t in diffs[:4]),
-                        dict(base, cdl=out[-6000:], oracle=e, differences=[t for _, t in diffs[:20]], features=tags,
-                             file=open(path, 'rb').read().hex()[:60000]), key))
+        for key, texts in regen_key('differs', feats, diffs):
+            co.viol.append(('dump -> ncmpigen does not reproduce the logical content: %s' % '; '.join(texts[:4]),
+                            dict(base, cdl=out[-6000:], oracle=e, differences=texts[:20], features=sorted(feats),
+                                 file=open(path, 'rb').read().hex()[:60000]), key))
     else:
         co.stat('regen:identical')
 
@@ -1162,33 +1172,40 @@ def data_features(c):
 
 
 def regen_key(kind, feats, diffs):
+    """stable keys for a failed dump -> ncmpigen round trip: -> [(key, [difference texts])], one entry per cause"""
     if kind == 'rejects':
         if 'att-ext-type' in feats:
-            return 'ncmpigen:rejects-dump:ext-type-att-suffix'
+            return [('ncmpigen:rejects-dump:ext-type-att-suffix', [])]
         if 'data-char-newline' in feats:
-            return 'ncmpigen:rejects-dump:char-data-newline'
-        return 'ncmpigen:rejects-dump'
-    cats = {k for k, _ in diffs}
-    if cats == {'att'}:
-        for f in ('att-text-trailing-nul', 'att-int64-beyond-2^53', 'att-text-newline'):
-            if f in feats:
-                return 'ncmpigen:content-differs:' + f
-        return 'ncmpigen:content-differs:att'
-    if 'data:char' in cats and 'data-char-newline' in feats and all(k == 'numrecs' or k.startswith('data:') for k in cats):
-        return 'ncmpigen:content-differs:data-char-newline'   # the split row adds a row (a record variable grows)
-    if cats == {'data:char'}:
-        for f in ('data-char-octal-escape-then-digit', 'data-char-embedded-nul'):
-            if f in feats:
-                return 'ncmpigen:content-differs:' + f
-        return 'ncmpigen:content-differs:char-data'
-    if cats and all(k.startswith('data:') for k in cats) and 'data:char' not in cats:
-        if 'data-fill-value-ext-type' in feats:
-            return 'ncmpigen:content-differs:fill-value-ext-type'
-        if 'data-int64-beyond-2^53' in feats and cats <= {'data:int64', 'data:uint64'}:
-            return 'ncmpigen:content-differs:int64-beyond-2^53'
-        if len(cats) == 1:
-            return 'ncmpigen:content-differs:' + next(iter(cats))
-    return 'ncmpigen:content-differs'
+            return [('ncmpigen:rejects-dump:char-data-newline', [])]
+        return [('ncmpigen:rejects-dump', [])]
+    groups = {}
+    if 'ncmpigen-nc_fill-error' in feats:
+        # "nc_fill: unrecognized type": ncmpigen counts an error, never closes the file, exits 0; every missing piece
+        # of the output has this single cause
+        return [('ncmpigen:content-differs:fill-value-ext-type', [t for _, t in diffs])]
+
+    def add(key, text):
+        groups.setdefault(key, []).append(text)
+    newline = 'data-char-newline' in feats and any(k == 'data:char' for k, _ in diffs)
+    for k, text in diffs:
+        if k == 'att':
+            f = next((f for f in ('att-text-trailing-nul', 'att-int64-beyond-2^53', 'att-text-newline') if f in feats), 'att')
+            add('ncmpigen:content-differs:' + f, text)
+        elif newline and (k == 'numrecs' or k.startswith('data:')):
+            add('ncmpigen:content-differs:data-char-newline', text)     # the split row adds a row; a record variable grows
+        elif k == 'data:char':
+            f = next((f for f in ('data-char-octal-escape-then-digit', 'data-char-embedded-nul') if f in feats), 'char-data')
+            add('ncmpigen:content-differs:' + f, text)
+        elif k.startswith('data:') and 'data-fill-value-ext-type' in feats:
+            add('ncmpigen:content-differs:fill-value-ext-type', text)
+        elif k in ('data:int64', 'data:uint64') and 'data-int64-beyond-2^53' in feats:
+            add('ncmpigen:content-differs:int64-beyond-2^53', text)
+        elif k.startswith('data:'):
+            add('ncmpigen:content-differs:' + k, text)
+        else:
+            add('ncmpigen:content-differs', text)
+    return sorted(groups.items())
 
 
 def run_case(T, seed, idx, tier):
@@ -1205,7 +1222,7 @@ def run_case(T, seed, idx, tier):
     d = os.path.join(T.d, 'case%d' % idx)
     os.makedirs(d, exist_ok=True)
     sha = hashlib.sha1(text.encode()).hexdigest()[:10]
-    base = dict(case=idx, family=family, script=text, script_sha=sha, features=sorted(feats))
+    base = dict(case=idx, case_seed=seed, family=family, script=text, script_sha=sha, features=sorted(feats))
     r = S.run_script(text, T.pnc_impl, None, d, 'w', keep=True, want_model=False, timeout=120)
     A = os.path.join(r.dir, 'f0.nc')
     if r.rc != 0 or not os.path.exists(A):
@@ -1391,11 +1408,12 @@ def run(ctx):
     if missing:
         ctx.violation('utilities missing from the build: %s' % missing, dict(missing=missing, relation='build'), no_input=True)
         return
-    ncases = int(os.environ.get('C20_CASES', '0')) or (64 if ctx.tier == 'quick' else 380)
+    ncases = int(os.environ.get('C20_CASES', '0')) or (48 if ctx.tier == 'quick' else 300)
     stats = {}
     occ = {}
+    case_seed = ctx.rng.next() & 0x7fffffff          # all randomness derives from ctx.rng (VERIF_SEED)
     with cf.ThreadPoolExecutor(max_workers=8) as ex:
-        futs = [ex.submit(run_case, T, ctx.seed, i, ctx.tier) for i in range(ncases)]
+        futs = [ex.submit(run_case, T, case_seed, i, ctx.tier) for i in range(ncases)]
         for i, fu in enumerate(futs):
             try:
                 co = fu.result()
@@ -1455,12 +1473,15 @@ def replay(ctx, d):
         t = out.split()
         want = 'accept' if t[1:4] == ['1', '1', '1'] else 'reject'
         rc, vout = sh_([T.ncvalidator, p], timeout=20, limit_mem=True)
+        if rc == -9:            # a hang must survive a second, long watchdog (loaded machine)
+            co.stat('retry:ncvalidator')
+            rc, vout = sh_([T.ncvalidator, p], timeout=150, limit_mem=True)
         got = 'accept' if rc == 0 else ('reject' if rc == 1 else 'rc=%d' % rc)
         print('oracle (decode strict_valid layout_ok):', t[1:4], '->', want, '| ncvalidator:', got)
         print(vout[-1500:])
         print('REPLAY: %s' % ('disagreement reproduced' if got != want else 'tool and oracle agree now'))
         return 1 if got != want else 0
-    co = run_case(T, int(d.get('seed', ctx.seed)), int(d['case']), d.get('tier', ctx.tier))
+    co = run_case(T, int(d.get('case_seed', ctx.seed)), int(d['case']), d.get('tier', ctx.tier))
     hit = [x for x in co.viol if x[2] == d.get('key')]
     for what, rep, key in co.viol:
         print('REPLAY:', key, what[:300])
